@@ -275,7 +275,14 @@ func sortCallbacks(cs []*callback) (fns []func(*DB), err error) {
 		names = append(names, c.name)
 	}
 
+	depth := 0
 	sortCallback = func(c *callback) error {
+		// callbacks referring to themselves or to each other would recurse forever
+		if depth++; depth > 2*len(cs)+2 {
+			return fmt.Errorf("conflicting callback %s with circular before/after", c.name)
+		}
+		defer func() { depth-- }()
+
 		if c.before != "" { // if defined before callback
 			if c.before == "*" && len(sorted) > 0 {
 				if curIdx := getRIndex(sorted, c.name); curIdx == -1 {
